@@ -111,6 +111,8 @@ RFCOMM_DEFAULT_INITIAL_CREDITS  = 7
 RFCOMM_DEFAULT_MAX_CREDITS      = 32
 RFCOMM_DEFAULT_CREDIT_THRESHOLD = RFCOMM_DEFAULT_MAX_CREDITS // 2
 RFCOMM_DEFAULT_MAX_FRAME_SIZE   = 1000
+RFCOMM_MIN_FRAME_SIZE           = 23     # N1 range, see RFCOMM 5.5.3 / TS 07.10 5.7.2
+RFCOMM_MAX_FRAME_SIZE           = 32767
 
 RFCOMM_DYNAMIC_CHANNEL_NUMBER_START = 1
 RFCOMM_DYNAMIC_CHANNEL_NUMBER_END   = 30
@@ -905,6 +907,15 @@ class Multiplexer(utils.EventEmitter):
     def on_ui_frame(self, frame: RFCOMM_Frame) -> None:
         pass
 
+    def acceptable_frame_size(self, max_frame_size: int) -> bool:
+        # The frame size a DLC uses is also bounded by what fits in an L2CAP PDU of the
+        # underlying channel (see DLC.__init__)
+        return (
+            max_frame_size <= RFCOMM_MAX_FRAME_SIZE
+            and min(max_frame_size, self.l2cap_channel.peer_mtu - 5)
+            >= RFCOMM_MIN_FRAME_SIZE
+        )
+
     def on_mcc_pn(self, c_r: bool, pn: RFCOMM_MCC_PN) -> None:
         if c_r:
             # Command
@@ -915,6 +926,11 @@ class Multiplexer(utils.EventEmitter):
                 # Not expected, this is an initiator-side number
                 # TODO: error out
                 logger.warning(f'invalid DLCI: {pn.dlci}')
+            elif not self.acceptable_frame_size(pn.max_frame_size):
+                # With a frame size of 0 the DLC could never send its data: every
+                # credit would be spent on an empty frame.
+                logger.warning(f'invalid max frame size: {pn.max_frame_size}')
+                self.send_frame(RFCOMM_Frame.dm(c_r=1, dlci=pn.dlci))
             else:
                 if self.acceptor:
                     channel_number = pn.dlci >> 1
@@ -944,7 +960,14 @@ class Multiplexer(utils.EventEmitter):
         else:
             # Response
             logger.debug(f'>>> PN Response: {pn}')
-            if self.state == Multiplexer.State.OPENING:
+            if self.state == Multiplexer.State.OPENING and not (
+                self.acceptable_frame_size(pn.max_frame_size)
+            ):
+                # Same as a refusal (see on_dm_frame)
+                logger.warning(f'invalid max frame size: {pn.max_frame_size}')
+                self.open_pn = None
+                self.on_dm_frame(RFCOMM_Frame.dm(c_r=0, dlci=pn.dlci))
+            elif self.state == Multiplexer.State.OPENING:
                 assert self.open_pn
                 dlc = DLC(
                     self,
